@@ -147,24 +147,27 @@ theorem stmt_sound (hw : WFG g) (hc : CleanEnv env) (hrank : RankOK g inp) (hsha
     | none => simp [hcs] at hp
     | some cshape =>
       simp only [hcs] at hp
-      simp only [suppNode, hn, hcs, Bool.and_eq_true, decide_eq_true_eq] at hs
+      simp only [suppNode, hn, hcs, Bool.and_eq_true] at hs
       split at hp
       · cases hp
-      · simp only [Gen.ok.injEq, Plan.stmt.injEq] at hp
+      · rename_i hk
+        simp only [Gen.ok.injEq, Plan.stmt.injEq] at hp
         obtain ⟨_, rfl, rfl⟩ := hp
-        obtain ⟨hbasic, _⟩ := basicNorm_basic ix cshape hs.2.1
+        obtain ⟨hbasic, _⟩ := basicNorm_basic ix cshape hs.2
         obtain ⟨_, _, _, hk0, _⟩ := idx_eval env (ix.take (emittedIdxCount ix cshape)) cshape
           (all_take _ _ _ hbasic)
-        rw [hk0] at hd
+        rw [hk0, List.nil_append] at hd
         obtain ⟨a, n, rfl, rfl, hda, hna⟩ := kids1 hb hd
         have hsh := hshape c a cshape hda hcs
         subst hsh
-        obtain ⟨gs, hg⟩ := basicNorm_toGs ix a.shape hs.2.1
-        simp only [List.headD_cons, List.tail_cons]
-        rw [subscript_sound hna ix gs hs.2.1 hg,
+        obtain ⟨gs, hg⟩ := basicNorm_toGs ix a.shape hs.2
+        simp only [List.dropLast_singleton]
+        show pyEval env (.subscript (.name n) _) = _
+        rw [subscript_sound hna ix gs hs.2 hg,
           denV_arr (by rw [hn]; intro items h; cases h), den_step hw]
-        simp [denoteStep, hn, hg, hda]
+        simp [denoteStep, hn, hg, hda, hk]
   | einsum d cs' => simp [suppNode, hn] at hs
+  | indexNC c ix => simp [suppNode, hn] at hs
   | roll c shift axis =>
     simp only [plan, hn, Gen.ok.injEq, Plan.stmt.injEq] at hp
     obtain ⟨_, rfl, rfl⟩ := hp
@@ -220,7 +223,7 @@ theorem stmt_defined (hdef : Defined g inp) {i : Nat} {pre : Bool} {kids : List 
     exact hdef i hs (by simp [notDict, hn])
 
 /-- a node without a statement denotes what its child denotes -/
-theorem pass_sound (hw : WFG g) {i c : Nat} (hp : plan g i = .ok (.pass c))
+theorem pass_sound (hw : WFG g) (hshape : ShapeOK g inp) {i c : Nat} (hp : plan g i = .ok (.pass c))
     (hs : suppNode g i = true) : denV g inp i = denV g inp c ∧ c ∈ kidsOf g i := by
   cases hn : (g.get i).node with
   | «alias» c' =>
@@ -237,10 +240,29 @@ theorem pass_sound (hw : WFG g) {i c : Nat} (hp : plan g i = .ok (.pass c))
     | none => simp [hcs] at hp
     | some cshape =>
       simp only [hcs] at hp
-      simp only [suppNode, hn, hcs, Bool.and_eq_true, decide_eq_true_eq] at hs
+      simp only [suppNode, hn, hcs, Bool.and_eq_true] at hs
       split at hp
-      · omega
+      · rename_i hk
+        simp only [Gen.ok.injEq, Plan.pass.injEq] at hp
+        subst hp
+        have hck : c' ∈ kidsOf g i := by simp [kidsOf, hn]
+        refine ⟨?_, hck⟩
+        have hnd : notDict g c' = true := by
+          have := hs.1
+          simp only [List.all_eq_true] at this
+          exact this c' hck
+        obtain ⟨gs, hg⟩ := basicNorm_toGs ix cshape hs.2
+        rw [denV_arr (by rw [hn]; intro items h; cases h), den_step hw,
+          denV_arr (by intro items h; simp [notDict, h] at hnd)]
+        simp only [denoteStep, hn, hg]
+        cases hda : den g inp c' with
+        | none => rfl
+        | some a =>
+          have hsh := hshape c' a cshape hda hcs
+          subst hsh
+          simp [hk]
       · cases hp
+  | indexNC c' ix => simp [suppNode, hn] at hs
   | indexLambda dt e binds lits =>
     simp only [plan, hn] at hp
     cases hsh : staticShape (g.get i).shape with
@@ -293,6 +315,13 @@ theorem input_sound (hw : WFG g) {i : Nat} {nm : Option String} (hp : plan g i =
     simp only [plan, hn] at hp
     cases hsh : staticShape (g.get i).shape <;> simp [hsh] at hp
   | index c ix =>
+    simp only [plan, hn] at hp
+    cases hsh : staticShape (g.get c).shape with
+    | none => simp [hsh] at hp
+    | some cshape =>
+      simp only [hsh] at hp
+      split at hp <;> cases hp
+  | indexNC c ix =>
     simp only [plan, hn] at hp
     cases hsh : staticShape (g.get c).shape with
     | none => simp [hsh] at hp
@@ -439,16 +468,17 @@ theorem stmt_kids {i : Nat} {pre : Bool} {kids : List Nat} {mk : List String →
     | none => simp [hcs] at hp
     | some cshape =>
       simp only [hcs] at hp
-      simp only [suppNode, hn, hcs, Bool.and_eq_true, decide_eq_true_eq] at hs
+      simp only [suppNode, hn, hcs, Bool.and_eq_true] at hs
       split at hp
       · cases hp
       · simp only [Gen.ok.injEq, Plan.stmt.injEq] at hp
         obtain ⟨_, rfl, _⟩ := hp
-        obtain ⟨hbasic, _⟩ := basicNorm_basic ix cshape hs.2.1
+        obtain ⟨hbasic, _⟩ := basicNorm_basic ix cshape hs.2
         obtain ⟨_, _, _, hk0, _⟩ := idx_eval [] (ix.take (emittedIdxCount ix cshape)) cshape
           (all_take _ _ _ hbasic)
         rw [hk0]
         simp [kidsOf, hn]
+  | indexNC c ix => simp [suppNode, hn] at hs
   | einsum d cs' => simp [suppNode, hn] at hs
   | roll c shift axis =>
     simp only [plan, hn, Gen.ok.injEq, Plan.stmt.injEq] at hp
